@@ -4,10 +4,12 @@ import corelib
 # custom levels registered by the worker before anything else (part of the model's initial state)
 CUSTOMS = [dict(v=13, title="NOTICE13", treat=4, err=False), dict(v=14, title="SWELL14", treat=2, err=True),
            dict(v=15, title="PLAIN15", treat=-1, err=False), dict(v=-8, title="NEG8", treat=-1, err=False),
-           dict(v=40, title="HIGH40", treat=6, err=False)]
-TREAT = {9: 4, 10: 4, 11: 2, 13: 4, 14: 2, 40: 6}
-ERRDEV = [0, 1, 2, 3, 11, 14]
-ALL_LEVELS = list(range(0, 12)) + [13, 14, 15, -8, 40]
+           dict(v=40, title="HIGH40", treat=6, err=False), dict(v=-21, title="NEG21", treat=4, err=False),
+           dict(v=-5, title="NEG5", treat=0, err=True), dict(v=1000, title="BIG1000", treat=3, err=False),
+           dict(v=12, title="MAX12", treat=5, err=False)]
+TREAT = {9: 4, 10: 4, 11: 2, 13: 4, 14: 2, 40: 6, -21: 4, -5: 0, 1000: 3, 12: 5}
+ERRDEV = [0, 1, 2, 3, 11, 14, -5]
+ALL_LEVELS = list(range(0, 12)) + [13, 14, 15, -8, 40, -21, -5, 1000, 12]
 GATE_SEVS = ALL_LEVELS + [17, 99, -3]          # plus unregistered values
 OBS = ["cfg", "gate"]
 
